@@ -268,7 +268,7 @@ def run(rep):
     ok, how, _ = xlayer.error_discipline(st)
     rep.check(ok, "R20.b", "stat/sutils.py", "pareto_front", "kernel error code raises", how, line=st.call.lineno)
     v = st.args.get("isdominated")
-    rep.check(v is not None and v[1].fresh and v[1].init == ("zeros",), "R20.b", "stat/sutils.py", "pareto_front", "flags: fresh zero int32 vector of one entry per point", "", line=st.call.lineno)
+    xlayer.check_init(rep, v, ("zeros",), "R20.b", "stat/sutils.py", "pareto_front", "flags: fresh zero int32 vector of one entry per point", st.call.lineno)
     pa = pq.call_arguments(st.func, st.call, list(st.shim.params))
     d_ = pa.get("data")
     okd = d_ is not None and all(pq.mentions(x, lambda e: pq.call_named(e, "astype") and e[2][0] == ('sym', 'data') and pq.same(e[2][1], "np.float64")) for _c, x in pq.split_where(d_))
